@@ -116,6 +116,7 @@ func runOne(prop, tier string, cf cfgT) (rep *core.Report) {
 	}
 	rep.Count("packages", len(p.Pkgs))
 	rep.Count("functions", len(p.Funcs))
+	defer props.ReleaseProgram(p.SSA)
 	ctx := props.NewCtx(p, rep, tier)
 	props.Registry[prop](ctx)
 	return rep
